@@ -480,10 +480,11 @@ func (p *Plugin) degradeCalculate(node *corev1.Node, message string) []framework
 
 func (p *Plugin) prepareForNodeResourceTopology(strategy *configuration.ColocationStrategy, node *corev1.Node,
 	nr *framework.NodeResource) error {
-	if len(nr.ZoneResources) <= 0 {
+	if len(nr.ZoneResources) <= 0 && !nr.Resets[extension.BatchCPU] && !nr.Resets[extension.BatchMemory] {
 		klog.V(6).Infof("skip prepare batch resources for NRT, Zone resources is not calculated, node %s", node.Name)
 		return nil
 	}
+	// when the batch resources are reset (degraded) the zone amounts published earlier are withdrawn as well
 
 	var nrt *topologyv1alpha1.NodeResourceTopology
 	err := util.RetryOnConflictOrTooManyRequests(func() error {
